@@ -62,7 +62,72 @@ def unspecifiedName (name : Cidr.Str) : Bool :=
   | some (h, p) => (Spec.isPort p && p.length > 5) || h.length > 255
   | none => name.length > 255
 
+/-! ### the RoundTrip op
+
+  The network of the harness: every name has its own loopback address and four servers listen on all of them —
+  port 1 = A answers; port 2 = B refuses the TLS handshake; port 3 = C closes the connection at once; port 4 = F
+  drops the first `k` connections of a request after reading the request head and answers later ones; nothing
+  listens on any other port.  Each server records what it saw of an attempt:
+    A,<dialled host>,<SNI>,<Host header>   B,<dialled host>,<SNI>   C,<dialled host>
+    D,<dialled host>,<SNI>,<Host header>  (dropped by F)   F,<dialled host>,<SNI>,<Host header>  (answered by F) -/
+
+def portOf (t : Target) : Cidr.Str :=
+  match splitLastColon t.dest with
+  | some (_, p) => p
+  | none => []
+
+/-- the host part of a destination as the servers see it: the dialled NAME (lower case: DNS), or the address literal;
+    `localhost` is resolved from the hosts file, not by the fake DNS -/
+def dialledOf (t : Target) : Cidr.Str :=
+  let h := match splitLastColon t.dest with
+    | some (h, _) => h
+    | none => t.dest
+  let h := if h.head? == some '[' && h.getLast? == some ']' then (h.drop 1).dropLast else h
+  if lowerStr h == "localhost".toList then "127.0.0.1".toList else lowerStr h
+
+/-- crypto/tls sends no SNI for IP literals -/
+def sniSent (s : Cidr.Str) : Cidr.Str := if (Cidr.parseIP s).isSome then [] else s
+
+def rtNetwork (k : Nat) : Network := fun hist t =>
+  let p := portOf t
+  if p == "1".toList then .ok
+  else if p == "2".toList then .tlsFail
+  else if p == "3".toList then .reset
+  else if p == "4".toList then
+    if (hist.filter (fun a => portOf a.1 == "4".toList)).length < k then .dropped else .ok
+  else .refused
+
+def showAttempt (a : Target × Reach) : Option String :=
+  let d := hexStr (dialledOf a.1)
+  let full := d ++ "," ++ hexStr (sniSent a.1.sni) ++ "," ++ hexStr a.1.host
+  match a.2 with
+  | .ok => if portOf a.1 == "4".toList then some ("F," ++ full) else some ("A," ++ full)
+  | .tlsFail => some ("B," ++ d ++ "," ++ hexStr (sniSent a.1.sni))
+  | .reset => some ("C," ++ d)
+  | .dropped => some ("D," ++ full)
+  | .refused => none
+
+/-- Does a recorded attempt `<server>,<dialled>[,<SNI>[,<Host>]]` go to the resolution result `t`, with the Host
+    header and TLS server name of `t` as far as the server saw them? -/
+def attemptMatches (t : Target) (fields : List String) : Bool :=
+  let portOK (srv : String) : Bool :=
+    portOf t == (if srv == "A" then "1" else if srv == "B" then "2" else if srv == "C" then "3" else "4").toList
+  match fields with
+  | [srv, d] => srv == "C" && portOK srv && d == hexStr (dialledOf t)
+  | [srv, d, sni] => srv == "B" && portOK srv && d == hexStr (dialledOf t) && sni == hexStr (sniSent t.sni)
+  | [srv, d, sni, host] =>
+    (srv == "A" || srv == "D" || srv == "F") && portOK srv && d == hexStr (dialledOf t)
+      && sni == hexStr (sniSent t.sni) && host == hexStr t.host
+  | _ => false
+
 /-- ops:
+    roundtrip <hx name> <wk of name> <srv script> [<k>]
+       -> rt:<attempts;…>|ok/err|wk=<well-known lookups>#<the same for a second request, which sees the resolution cache>
+    roundtrip_props <args of roundtrip> <hex of the implementation's outcome>  — implementation outcome is the constant
+       `ok`; the driver prints `ok` when EVERY recorded attempt of both requests (first pass and retry pass) goes to a
+       result of the SPECIFICATION's resolution of the original server name (`Spec.resolve`), with the Host header and
+       TLS server name the specification assigns to that result — else `violates:attempt-is-no-resolution-result:<attempt>`.
+       Where connections go is all the property says: re-using the targets that just failed is allowed.
     resolve <hx name> <wk of name> <wk of delegated (never consulted)> <srv script>
        -> ok:<dest,host,sni;...>|wk=<names asked for /.well-known> | err:invalid-server-name|wk=... | panic:...
 -/
@@ -86,35 +151,45 @@ def handle (op : String) (args : Array String) : Option String :=
                  | none => [])
       some (m ++ "\t" ++ s)
     | _, _, _ => some "bad-op"
-  | "roundtrip", [n, wk1, script] =>
+  | "roundtrip", n :: wk1 :: script :: rest =>
     match unhexStr n, parseWK wk1, parseScript script with
     | some name, some wk, some sc =>
       let o : Oracles := { wk := fun q => if q == name then wk else none, srv := srvOf sc }
-      -- the network of the harness: port 1 = the answering server, port 2 = the server that fails the TLS
-      -- handshake, anything else = nothing listens
-      let reach (t : Target) : Reach :=
-        match splitLastColon t.dest with
-        | some (_, p) => if p == "1".toList then .ok else if p == "2".toList then .tlsFail else .refused
-        | none => .refused
-      -- crypto/tls sends no SNI for IP literals and strips trailing dots
-      let sniSent (s : Cidr.Str) : Cidr.Str := if (Cidr.parseIP s).isSome then [] else s
+      let k := (rest.head?.bind String.toNat?).getD 0
       let showTrip (r : Except Err Trip) : String :=
         match r with
         | .error e => showErr e
         | .ok tr =>
-          let seen := tr.attempts.filterMap (fun a => match a.2 with
-            | .ok => some ("A," ++ hexStr (sniSent a.1.sni) ++ "," ++ hexStr a.1.host)
-            | .tlsFail => some ("B," ++ hexStr (sniSent a.1.sni))
-            | .refused => none)
-          ";".intercalate seen ++ (if tr.ok then "|ok" else "|err") ++
+          ";".intercalate (tr.attempts.filterMap showAttempt) ++ (if tr.ok then "|ok" else "|err") ++
             "|wk=" ++ (if tr.resolved && (match resolveDirect name with | .ok none => true | _ => false) then "1" else "0")
-      let t1 := roundTrip o name reach none
+      let t1 := roundTrip o name (rtNetwork k) none
       let cache := match t1 with
         | .ok tr => tr.cache
         | .error _ => none
-      let t2 := roundTrip o name reach cache
+      let t2 := roundTrip o name (rtNetwork k) cache
       some ("rt:" ++ showTrip t1 ++ "#" ++ showTrip t2)
     | _, _, _ => some "bad-op"
+  | "roundtrip_props", [n, wk1, script, _k, answer] =>
+    match unhexStr n, parseWK wk1, parseScript script, (unhex answer).map bytesStr with
+    | some name, some wk, some sc, some ans =>
+      if !ans.startsWith "rt:" then some "bad-op" else
+      let o : Oracles := { wk := fun q => if q == name then wk else none, srv := srvOf sc }
+      let delegatedUnspec := match wk with
+        | some d => unspecifiedName d
+        | none => false
+      if unspecifiedName name || delegatedUnspec then some "ok\tunspecified:name-spelling-outside-grammar" else
+      -- the specification's resolution results for the ORIGINAL server name; none when it refuses the name
+      let allowed : List Target := match Spec.resolve o name with
+        | .ok ts => ts
+        | .error _ => []
+      -- every attempt either request made
+      let attempts : List String := ((ans.drop 3).toString.splitOn "#").flatMap (fun req =>
+        let tr := (req.splitOn "|").headD ""
+        if tr.isEmpty || tr.startsWith "err:" then [] else tr.splitOn ";")
+      match attempts.find? (fun a => !(allowed.any (fun t => attemptMatches t (a.splitOn ",")))) with
+      | some a => some ("ok\tviolates:attempt-is-no-resolution-result:" ++ a)
+      | none => some "ok\tok"
+    | _, _, _, _ => some "bad-op"
   | "validate", [n] =>
     match unhexStr n with
     | some name =>
